@@ -23,7 +23,7 @@ WORK = os.path.join(VERIF, '.work')
 SHIM = os.path.join(VERIF, 'shim')
 
 CHECK_FLAGS_DEFAULT = ['--bounds-check', '--pointer-check', '--div-by-zero-check', '--signed-overflow-check',
-                       '--undefined-shift-check']
+                       '--undefined-shift-check', '--no-malloc-may-fail']
 
 
 def sh(cmd, timeout=None, mem_gb=24, cwd=None):
@@ -115,6 +115,45 @@ def record_struct(recname, cname, tu, types):
     return '\n'.join(lines), [f[0] for f in fields], ctor_fields
 
 
+_ENUM_CACHE = {}
+
+
+def enum_value_from_ast(tu, ty, name):
+    """value of an enumerator, read from the AST of the real enum declaration"""
+    short = ty.replace('const ', '').strip().split('::')[-1]
+    key = (tu, short)
+    if key not in _ENUM_CACHE:
+        vals = {}
+        for d in get_docs(tu, short):
+            for n in ast2c.walk(d):
+                if n.get('kind') == 'EnumDecl':
+                    nxt = 0
+                    for c in n.get('inner', []) or []:
+                        if c.get('kind') == 'EnumConstantDecl':
+                            v = None
+                            for x in ast2c.walk(c):
+                                if x.get('kind') == 'ConstantExpr' and 'value' in x:
+                                    v = int(x['value'])
+                                    break
+                            if v is None:
+                                v = nxt
+                            vals[c['name']] = v
+                            nxt = v + 1
+        _ENUM_CACHE[key] = vals
+    return _ENUM_CACHE[key].get(name)
+
+
+def global_define(tu, name, types):
+    """#define for a namespace-scope constant, its initialiser rendered from the AST"""
+    for d in get_docs(tu, name):
+        for n in ast2c.walk(d):
+            if n.get('kind') == 'VarDecl' and n.get('name') == name and n.get('inner'):
+                init = [c for c in n['inner'] if c.get('kind') not in ('FullComment',)][0]
+                p = ast2c.Printer(types, {'name': '_global_' + name, '_selfs': {}})
+                return '#define %s (%s)' % (name, p.e(p.skip(init)))
+    raise ExtractionBreak('global constant %s not found' % name)
+
+
 def render_unit(unit, units, shared):
     """returns dict with sig/body text for an extracted unit (kind: function) or a lemma unit (kind: lemma)"""
     kind = unit.get('kind', 'function')
@@ -126,6 +165,7 @@ def render_unit(unit, units, shared):
     u['ctors'] = shared['ctors']
     if 'enums' not in u:
         u['enums'] = {}
+    u['_enum_lookup'] = lambda ty, name: enum_value_from_ast(unit['tu'], ty, name)
     docs = get_docs(unit['tu'], unit['filter'])
     if kind == 'fragment':
         import fragment
@@ -161,7 +201,7 @@ def closure(unit, units):
     seen = []
 
     def go(n):
-        for x in units[n].get('uses', []):
+        for x in units[n].get('uses', []) + units[n].get('inline', []):
             if x not in units:
                 raise specmod.SpecError('unit %s uses unknown unit %s' % (n, x))
             if x not in seen:
@@ -195,29 +235,60 @@ def build_c(unit, units, outdir, defines=()):
     for n in used + [unit['name']]:
         rendered[n] = render_unit(units[n], units, shared)
     main = rendered[unit['name']]
-    parts = ['/* GENERATED by /verif/tools/driver.py from %s (unit %s) -- do not edit */' % (unit.get('tu', 'lemma'), unit['name']),
-             ] + list(defines) + ['#include "nvec.h"']
+    allu = used + [unit['name']]
+    # members the contract talks about but the body does not touch (their frame is then proved by the assigns clause)
+    for n in allu:
+        if units[n].get('self') and isinstance(units[n].get('members'), dict):
+            reg = shared['selfs'].setdefault(units[n]['self'], OrderedDict())
+            for k, v in units[n]['members'].items():
+                reg.setdefault(k, v)
+    inl = set()
+    for n in allu:
+        inl.update(units[n].get('inline', []))
+    b_used_contract = [n for n in used if n not in inl]
+    body = splice(main['body'], unit['sections'], unit['name'])
+    parts = ['/* GENERATED by /verif/tools/driver.py from %s (unit %s) -- do not edit */' % (unit.get('tu', 'lemma'), unit['name'])]
+    parts += list(defines) + ['#include "nvec.h"']
+    gl = []
+    for n in allu:
+        for g in units[n].get('globals', []):
+            if g not in gl:
+                gl.append(g)
+                parts.append(global_define(units[n]['tu'], g, types))
     parts += rec_txt
+    seen_types = set()
+    for n in allu:
+        tx = units[n]['sections'].get('types', '')
+        if tx.strip() and tx not in seen_types:
+            seen_types.add(tx)
+            parts.append('/* model types of %s */\n%s' % (n, tx))
     parts.append(types.typedefs())
+    shim_ghosts = []
     for vn, el in types.vecs.items():
         parts.append('VEC_SHIMS(%s, %s)' % (vn, el))
+        if any(re.search(r'\b%s_erase_at\s*\(' % re.escape(vn), rendered[n]['body'] or '') for n in allu):
+            parts.append('size_t gh_e_%s;\nVEC_SHIMS_ERASE(%s, %s)' % (vn, vn, el))
+            shim_ghosts.append(('size_t', 'gh_e_' + vn))
     for sname, members in shared['selfs'].items():
-        if sname == '_noself':
+        if sname == '_noself' or sname in records.values():
             continue
-        extra = OrderedDict()
-        for n in used + [unit['name']]:
-            for k, v in units[n].get('members', {}).items() if isinstance(units[n].get('members'), dict) else []:
-                extra[k] = v
         parts.append('typedef struct %s {\n%s\n} %s;' % (sname, '\n'.join('\t%s %s;' % (ct, m) for m, ct in members.items()), sname))
-    preludes_done = set()
-    for n in used + [unit['name']]:
+    seen_pl = set()
+    for n in allu:
         pl = units[n]['sections'].get('prelude', '')
-        if pl.strip():
+        if pl.strip() and pl not in seen_pl:
+            seen_pl.add(pl)
             parts.append('/* prelude of %s */\n%s' % (n, pl))
     for n in used:
         r = rendered[n]
-        parts.append('/* used under contract: %s */\n%s\n%s;' % (n, r['sig'], units[n]['sections'].get('contract', '').rstrip()))
-    body = splice(main['body'], unit['sections'], unit['name'])
+        if n in inl:
+            # small accessor extracted from the real source and included with its BODY (not replaced by a contract)
+            secs = units[n]['sections']
+            if unit.get('unwind'):
+                secs = {k: v for k, v in secs.items() if not k.startswith('loop ')}
+            parts.append('/* inlined from the real source: %s */\nstatic %s\n%s' % (n, r['sig'], splice(r['body'], secs, n)))
+        else:
+            parts.append('/* used under contract: %s */\n%s\n%s;' % (n, r['sig'], units[n]['sections'].get('contract', '').rstrip()))
     parts.append('/* ---- function under verification: %s ---- */\n%s\n%s\n%s' % (unit['name'], main['sig'], unit['sections'].get('contract', '').rstrip(), body))
     # harness
     hname = 'h_' + unit['name']
@@ -237,6 +308,8 @@ def build_c(unit, units, outdir, defines=()):
             for gm in re.finditer(r'^\s*([A-Za-z_][\w ]*?[\w\*])\s+(gh_\w+(?:\s*,\s*gh_\w+)*)\s*;', units[n]['sections'].get('prelude', ''), re.M):
                 for g in re.split(r'\s*,\s*', gm.group(2)):
                     decls.append('\t{ %s nd_%s; %s = nd_%s; }' % (gm.group(1), g, g, g))
+        for ty, g in shim_ghosts:
+            decls.append('\t{ %s nd_%s; %s = nd_%s; }' % (ty, g, g, g))
         call = '%s(%s);' % (unit['name'], ', '.join(args))
         parts.append('void %s(void)\n{\n%s\n\t%s\n#ifdef VACUITY\n\t__CPROVER_assert(0, "vacuity: end of harness reachable");\n#endif\n}' % (hname, '\n'.join(decls), call))
     ctext = '\n\n'.join(x for x in parts if x) + '\n'
@@ -250,7 +323,7 @@ def build_c(unit, units, outdir, defines=()):
         if rendered[n]['printer']:
             fired.update(rendered[n]['printer'].fired)
     fired.update(types.fired)
-    return {'cpath': cpath, 'harness': hname, 'called': called, 'loops': nloops, 'fired': dict(fired), 'used': used,
+    return {'cpath': cpath, 'harness': hname, 'called': called, 'loops': nloops, 'fired': dict(fired), 'used': b_used_contract,
             'src_file': main.get('file'), 'src_line': main.get('line'), 'ctext': ctext,
             'vec_types': list(types.vecs.keys())}
 
@@ -270,14 +343,14 @@ def instrument(unit, units, b, outdir, defines=(), tag=''):
     replace = []
     cand = list(b['used']) + unit.get('replace', [])
     for vt in b['vec_types']:
-        cand += [vt + '_grow', vt + '_ctor_n']
+        cand += [vt + '_grow', vt + '_ctor_n', vt + '_erase_at']
     body_txt = ctext[ctext.index('/* ---- function under verification'):]
     # inline shim wrappers call _grow
     for c in cand:
         if re.search(r'\b%s\s*\(' % re.escape(c), body_txt) or (c.endswith('_grow') and re.search(r'\b%s_resize\s*\(' % re.escape(c[:-5]), body_txt)):
             if c not in replace:
                 replace.append(c)
-    cmd = ['goto-instrument', '--dfcc', b['harness'], '--enforce-contract' + ('-rec' if unit.get('recursive') else ''), name]
+    cmd = ['goto-instrument', '--no-malloc-may-fail', '--dfcc', b['harness'], '--enforce-contract' + ('-rec' if unit.get('recursive') else ''), name]
     for r in replace:
         cmd += ['--replace-call-with-contract', r]
     has_loop_contract = any(k.startswith('loop ') for k in unit['sections'])
@@ -418,6 +491,14 @@ def verify_unit(unit, units, tier='quick', jobs=4, log=None):
             unit['sections'] = {k: v for k, v in unit['sections'].items() if not k.startswith('loop ')}
             unit['backend'] = unit.get('bounded_backend', 'sat')
             b = build_c(unit, units, outdir, defines=['#define CAP %s' % unit.get('cap', '5'), '#define BOUNDED 1'])
+        elif unit.get('cap'):
+            # capacity-bounded: loop contracts kept (induction over iterations), but every container holds <= cap elements.
+            # Reported as a bounded stand-in, never counted as proved.
+            unit = dict(unit)
+            unit['backend'] = unit.get('bounded_backend', 'sat')
+            res['bounded'] = True
+            res['backend'] = unit['backend']
+            b = build_c(unit, units, outdir, defines=['#define CAP %s' % unit['cap'], '#define BOUNDED 1'])
         else:
             b = build_c(unit, units, outdir)
     except ExtractionBreak as e:
